@@ -175,6 +175,10 @@ pub struct SinkFaults {
     /// F5: fail the `index`-th operation of `kind` ("write"|"seek"|"flush"); sticky = keep failing
     #[serde(default)]
     pub fail: Option<FailOp>,
+    /// the destination delivers bytes only when it is flushed (a transactional writer, another BufWriter: legal under
+    /// the Write contract): the image the readers get is the one as of the last successful flush
+    #[serde(default)]
+    pub commit_on_flush: bool,
 }
 
 #[derive(Clone, Debug, PartialEq, Serialize, Deserialize)]
